@@ -223,7 +223,8 @@ def run(P: Program, R: Report, tier: str) -> None:
         init = A.init_of(c)
         from .util import guards_of as _g0
 
-        return any(isinstance(x, ast.Raise) and any(" in " in g_ or " not in " in g_ for g_ in _g0(init, x)) for x in ast.walk(init.node))
+        return any(isinstance(x, ast.Raise) for x in ast.walk(init.node)) and any(
+            isinstance(x, ast.Compare) and len(x.ops) == 1 and isinstance(x.ops[0], (ast.In, ast.NotIn)) for x in ast.walk(init.node))
 
     una = [c for c in A.primitives if refuses_by_membership(c) and any(k in norm(A.init_of(c).node) + callee_blob(A.init_of(c)) for k in (".all_features", ".annotators.features", "annotators."))]
     if not una:
